@@ -393,7 +393,16 @@ def rule_default_kind(prog, rep, tier, scope=None):
             if not is_default:
                 continue
             n += 1
-            key = ast.dump(target)
+
+            def read_key(x):
+                """`X["default"]` and `X.get("default")` are the same read"""
+                if isinstance(x, ast.Subscript) and isinstance(x.slice, ast.Constant) and x.slice.value == "default":
+                    return "default-of:" + ast.dump(x.value)
+                if isinstance(x, ast.Call) and isinstance(x.func, ast.Attribute) and x.func.attr == "get" and x.args and isinstance(x.args[0], ast.Constant) \
+                        and x.args[0].value == "default":
+                    return "default-of:" + ast.dump(x.func.value)
+                return ast.dump(x)
+            key = read_key(target)
             evidence = None
             from sa.model import enclosing_fn
             from sa.cfg import facts
@@ -401,18 +410,18 @@ def rule_default_kind(prog, rep, tier, scope=None):
             for c, pol in atoms:
                 if not pol:
                     continue
-                if isinstance(c, ast.Call) and isinstance(c.func, ast.Name) and c.func.id == "isinstance" and len(c.args) == 2 and ast.dump(c.args[0]) == key \
+                if isinstance(c, ast.Call) and isinstance(c.func, ast.Name) and c.func.id == "isinstance" and len(c.args) == 2 and read_key(c.args[0]) == key \
                         and "str" in {x.id for x in ast.walk(c.args[1]) if isinstance(x, ast.Name)}:
                     evidence = "isinstance(.., str)"
-                elif isinstance(c, ast.Call) and isinstance(c.func, ast.Name) and c.func.id == "hasattr" and len(c.args) == 2 and ast.dump(c.args[0]) == key \
+                elif isinstance(c, ast.Call) and isinstance(c.func, ast.Name) and c.func.id == "hasattr" and len(c.args) == 2 and read_key(c.args[0]) == key \
                         and isinstance(c.args[1], ast.Constant) and c.args[1].value in ("__len__", "__getitem__") and what in ("len(...)", "indexing"):
                     evidence = "hasattr(.., %r)" % c.args[1].value
-                elif isinstance(c, ast.Call) and c.args and ast.dump(c.args[0]) == key and isinstance(c.func, (ast.Name, ast.Attribute)) \
+                elif isinstance(c, ast.Call) and c.args and read_key(c.args[0]) == key and isinstance(c.func, (ast.Name, ast.Attribute)) \
                         and any(isinstance(tt, FunctionInfo) and tt.qualname in str_preds for tt in prog.resolve_expr_fn(c.func, c)):
                     evidence = "%s(..) tests isinstance(.., str)" % src(c.func, 30)
                 elif isinstance(c, ast.Compare) and len(c.ops) == 1 and isinstance(c.ops[0], ast.Eq) and \
-                        ((ast.dump(c.left) == key and isinstance(c.comparators[0], ast.Constant) and isinstance(c.comparators[0].value, str))
-                         or (ast.dump(c.comparators[0]) == key and isinstance(c.left, ast.Constant) and isinstance(c.left.value, str))):
+                        ((read_key(c.left) == key and isinstance(c.comparators[0], ast.Constant) and isinstance(c.comparators[0].value, str))
+                         or (read_key(c.comparators[0]) == key and isinstance(c.left, ast.Constant) and isinstance(c.left.value, str))):
                     evidence = "compared equal to a str constant"
             where = fi
             while where.parent_fn is not None:
